@@ -4,6 +4,11 @@ HERE = os.path.dirname(os.path.dirname(os.path.abspath(__file__)))
 BASE = json.load(open("/root/.vp/BASELINE.json"))["cmd"]
 
 CHECKS = {
+ "C14": dict(
+   technique="bounded exhaustive enumeration of reward-row sequences x compositions x binarizers x neighbourhood policies x add_arm(binarizer) variants; differential oracle against a binarizer-free twin fed pre-converted rewards",
+   text="Thompson Sampling alone and under each of Radius, KNearest, LSHNearest, Clusters (both k-means variants) and TreeBandit, with three binarizers that are not idempotent on {0,1}, is trained on every row sequence up to the bound through every composition, optionally installing a new binarizer by add_arm after the first call; outputs must equal those of a twin without binarizer trained on the converted rewards.",
+   note="n<=3 rows over a 6-row alphabet with rewards {0,1,2,5} (quick), n<=4 (thorough); known finding F-C14-a (TreeBandit converts leaf rewards again) attributed by trigger + in-memory repair",
+   ref="DESIGN.md section 7 (C14), section 8"),
  "C04": dict(
    technique="exhaustive enumeration of all order-preserving interleavings of a subject script with an interfering bandit's script (56 merges x 3 interferer kinds x every combination); fresh-interpreter runs over a hash-seed alphabet",
    text="The 5-step script of a seeded bandit is interleaved in every possible way with the 3-step script of another bandit with another seed (built from the very same policy tuple objects, from default-constructed tuples, or a TreeBandit) and must produce the outputs it produces alone; the script is also executed in fresh interpreters with PYTHONHASHSEED 0, 1, 4242 and random. TreeBandit subjects use a driver in which the random_state-dependent split choice is observable.",
